@@ -7,7 +7,8 @@
 From Coq Require Import ZArith Bool List Arith Lia QArith Qcanon.
 From QV.Core Require Import OF QcOF.
 From QV.Model Require Import C03_Index C03_VarObj C03_SetQOps C03_SetHistory.
-From QV.Proofs Require Import C03_Index C03_VarObj C03_SetQOps C03_Derivative C03_Extra C03_SetHistory.
+From QV.Proofs Require Import C03_Index C03_VarObj C03_SetQOps C03_Derivative C03_Extra C03_SetHistory C03_ExecSpec.
+From QV.Exec Require Import Base C03_ops.
 Import ListNotations.
 
 (* ------------------------------------------------------------------ round trips *)
@@ -305,6 +306,29 @@ Theorem C03_history_points_at_entry : forall (F : OF) (s : setq F) (h : list (ho
                 (qop_stacked F (nth i (ops_of F s' k) dq)) (c0 F).
 Proof. exact history_points_at_entry. Qed.
 Print Assumptions C03_history_points_at_entry.
+
+(* ------------------------------------------------------------------ the executed wrappers (Exec/C03_ops.v) on the harness's encoding
+   sizes = four length-prefixed blocks (state, gate, povm, mprocess); objects = (type code, d, m, flag) + stacked vector *)
+Theorem C03_exec_local_from_total : forall (s : sizes) (t : Z) (qs : list Qc),
+  op_local_from_total (t :: encode_sizes s) qs =
+  match local_from_total s t with
+  | LOk k i j => Ok [qz (code_of k); qz i; qz j]
+  | LIndexError => Err 3
+  | LUnbound => Err 4
+  end.
+Proof. exact op_local_from_total_spec. Qed.
+Print Assumptions C03_exec_local_from_total.
+Theorem C03_exec_total_from_local : forall (s : sizes) (k : kind) (i j : Z) (qs : list Qc),
+  op_total_from_local (code_of k :: i :: j :: encode_sizes s) qs =
+  match total_from_local s k i j with Some t => Ok [qz t] | None => Err 3 end.
+Proof. exact op_total_from_local_spec. Qed.
+Print Assumptions C03_exec_total_from_local.
+(* a well-formed object is rebuilt exactly from its stacked vector, so the to_var wrapper computes the model's to_var of that object *)
+Theorem C03_exec_to_var : forall (o : qop Qc_OF), qop_wf Qc_OF o ->
+  obj_of_stacked (qop_code o) (Z.of_nat (qop_d o)) (Z.of_nat (qop_m o)) (qop_flag o) (qop_stacked Qc_OF o) = o /\
+  op_to_var [qop_code o; Z.of_nat (qop_d o); Z.of_nat (qop_m o); flag_code (qop_flag o)] (qop_stacked Qc_OF o) = Ok (qop_to_var Qc_OF o).
+Proof. intros o W. split; [exact (obj_of_stacked_stacked o W)|exact (op_to_var_spec o W)]. Qed.
+Print Assumptions C03_exec_to_var.
 
 (* ------------------------------------------------------------------ non-vacuity: concrete instances over Qc *)
 (* index maps: 1-qubit instrument with 3 outcomes under the constraint has 3*16-4 = 44 variables; variable 40 lives in
